@@ -180,7 +180,11 @@ def run_case(spec):
     counters = {'cases': 1}
     try:
         paths = cv.write_case(case, wd)
-        fa, _ = cvmon.execute(case, wd, paths)
+        try:
+            fa, _ = cvmon.execute(case, wd, paths)
+        except Exception:
+            # callVariant only PRODUCES the input of this check; its crashes on valid input are decided by C01
+            return {'nontrivial': False, 'feature': None, 'counters': {'cases': 1, 'input_generation_crashed': 1}}
         if not fa:
             return {'nontrivial': False, 'feature': None, 'counters': {'cases': 1, 'empty_fasta': 1}}
         novel_fa, alt_fa = extra_databases(case, wd, rng) if spec.get('multi', True) else (None, None)
